@@ -107,3 +107,12 @@ def test_c08_c10_config_zero_direction():
     perm = [0, 2, 1]
     J3 = torch.tensor([[-1.0], [-1.0], [1.0]], dtype=torch.float64)
     assert torch.allclose(ConFIG(pref_vector=pref)(J3), ConFIG(pref_vector=pref[perm])(J3[perm]), atol=1e-12)
+
+
+def test_c10_c11_imtlg_float32_stationary():
+    """584d3c6: in float32 the zero sum of pinv(G) @ d is only zero up to ~1e-7: noise was normalised into weights."""
+    J = torch.tensor([[-1.0], [1.0]])
+    assert float(IMTLG()(J)) == 0.0 and float(IMTLG()(J.flip(0))) == 0.0
+    J2 = torch.tensor([[-1.0, -1.0], [0.0, 1.0], [1.0, 0.0]])
+    for t in (1.0, 3.0, 1e-3, 1e12):
+        assert torch.equal(IMTLG()(J2 * t), torch.zeros(2))
